@@ -100,9 +100,22 @@ class Collector(ast.NodeVisitor):
 
     # -- traversal
     def visit_ClassDef(self, node):
+        # methods of this class that build an event stamped with the current clock and return it
+        self.factories = getattr(self, "factories", [])
+        facs = set()
+        for m in node.body:
+            if isinstance(m, ast.FunctionDef) and not any(isinstance(y, (ast.Yield, ast.YieldFrom)) for y in ast.walk(m)):
+                stamped = any(isinstance(c, ast.Call) and dotted(c.func) in ("Event", "Event.once")
+                              and any(isinstance(a, ast.Attribute) and a.attr == "now"
+                                      for k in c.keywords if k.arg == "time" for a in ast.walk(k.value))
+                              for c in ast.walk(m))
+                if stamped and any(isinstance(r, ast.Return) and r.value is not None for r in ast.walk(m)):
+                    facs.add(m.name)
+        self.factories.append(facs)
         self.stack.append(node.name)
         self.generic_visit(node)
         self.stack.pop()
+        self.factories.pop()
 
     def visit_FunctionDef(self, node):
         self.stack.append(node.name)
@@ -116,6 +129,7 @@ class Collector(ast.NodeVisitor):
                 self.set_locals[-1].add(n.target.id)
         self.scan_generator(node)
         self.scan_closure_events(node)
+        self.scan_event_times(node)
         self.generic_visit(node)
         self.set_locals.pop()
         self.stack.pop()
@@ -213,6 +227,17 @@ class Collector(ast.NodeVisitor):
                                      and isinstance(nxt.value.elts[0], ast.Constant) and nxt.value.elts[0].value in (0, 0.0))
                         if not zero_emit:
                             self.add("stale_now", f"Event(time={tsrc[:40]}) built before a later yield")
+        # a call of an event factory of the same class (a method that stamps an event with the clock and
+        # returns it) kept in a local before a later yield: the stamp is stale when the event is emitted
+        facs = self.factories[-1] if getattr(self, "factories", None) else set()
+        for n in ast.walk(fn):
+            if isinstance(n, ast.Call) and isinstance(n.func, ast.Attribute) and isinstance(n.func.value, ast.Name) \
+                    and n.func.value.id == "self" and n.func.attr in facs and self.owner(fn, n):
+                par = self.parent_stmt(fn, n)
+                if isinstance(par, (ast.Assign, ast.AugAssign, ast.AnnAssign)) or \
+                        (isinstance(par, ast.Expr) and not isinstance(par.value, (ast.Yield, ast.YieldFrom))):
+                    if any(y > par.end_lineno for y in yields):
+                        self.add("stale_now", f"event from self.{n.func.attr}() kept before a later yield")
         for n in ast.walk(fn):
             if isinstance(n, ast.While):
                 for b in n.body:
@@ -265,6 +290,51 @@ class Collector(ast.NodeVisitor):
             for nm in sorted(used):
                 self.add("stale_now", f"events in '{nm}' stamped in the enclosing function, emitted by nested generator {g.name} after a yield")
 
+    # -- C07: where does the timestamp of every emitted event come from?
+    def now_derived(self, fn, expr, depth=0):
+        """True when `expr` is recognisably the current instant plus something: it reads a `.now`
+        attribute (self.now, self._clock.now, ...), or the triggering event's own time, or a local
+        name all of whose bindings in `fn` are such expressions.  Subtractions are left to neg_time."""
+        if any(isinstance(x, ast.Attribute) and x.attr == "now" for x in ast.walk(expr)):
+            return True
+        src = ast.unparse(expr)
+        params = [a.arg for a in fn.args.args]
+        if isinstance(expr, ast.Attribute) and expr.attr == "time" and isinstance(expr.value, ast.Name) and expr.value.id in params:
+            return True
+        if isinstance(expr, ast.Name) and depth < 3:
+            binds = [n.value for n in ast.walk(fn) if isinstance(n, ast.Assign) and any(isinstance(t, ast.Name) and t.id == expr.id for t in n.targets)]
+            binds += [n.value for n in ast.walk(fn) if isinstance(n, ast.AnnAssign) and isinstance(n.target, ast.Name) and n.target.id == expr.id and n.value is not None]
+            return bool(binds) and all(self.now_derived(fn, b, depth + 1) for b in binds)
+        if isinstance(expr, ast.BinOp) and isinstance(expr.op, ast.Add):
+            return self.now_derived(fn, expr.left, depth) or self.now_derived(fn, expr.right, depth)
+        if isinstance(expr, ast.IfExp):
+            return self.now_derived(fn, expr.body, depth) and (self.now_derived(fn, expr.orelse, depth) or "Epoch" in ast.unparse(expr.orelse))
+        if isinstance(expr, ast.Call) and expr.args and ast.unparse(expr.func).endswith(("from_seconds", "max")):
+            return any(self.now_derived(fn, a, depth) for a in expr.args)
+        return False
+
+    def expand(self, fn, expr):
+        """time expression with the local names it mentions expanded one level (all their bindings)."""
+        out = [ast.unparse(expr)]
+        for nm in sorted({x.id for x in ast.walk(expr) if isinstance(x, ast.Name)} - {"self"}):
+            binds = sorted({ast.unparse(n.value) for n in ast.walk(fn) if isinstance(n, ast.Assign)
+                            and any(isinstance(t, ast.Name) and t.id == nm for t in n.targets)})
+            if binds:
+                out.append(f"{nm} := " + " | ".join(binds))
+        return "; ".join(out)[:200]
+
+    def scan_event_times(self, fn):
+        if not self.rel.startswith(("happysimulator/components/", "happysimulator/faults/", "happysimulator/load/", "happysimulator/behavior/")):
+            return
+        for n in ast.walk(fn):
+            if isinstance(n, ast.Call) and dotted(n.func) in ("Event", "Event.once") and self.owner(fn, n):
+                tkw = next((k.value for k in n.keywords if k.arg == "time"), n.args[0] if n.args else None)
+                if tkw is None:
+                    self.add("event_time", "no time argument")
+                    continue
+                if not self.now_derived(fn, tkw):
+                    self.add("event_time", "time=" + self.expand(fn, tkw))
+
     def owner(self, fn, node):
         # is `node` directly inside fn (not in a nested def)?
         for sub in ast.walk(fn):
@@ -304,7 +374,7 @@ def extract(repo=None):
 
 
 C03_KINDS = ("hash", "id", "uuid", "wallclock", "wallclock_ref", "urandom", "globalrandom", "setiter")
-C07_KINDS = ("stale_now", "spin", "neg_time")
+C07_KINDS = ("stale_now", "spin", "neg_time", "event_time")
 
 
 def coq_string(s):
